@@ -129,7 +129,8 @@ type Analyzer struct {
 	Obligs []*Oblig
 	Steps  int
 	// AtCall is invoked in the final pass for every static call to a module function.
-	AtCall func(a *Analyzer, d *DBM, call *ssa.Call)
+	AtCall      func(a *Analyzer, d *DBM, call *ssa.Call)
+	refineDepth int
 }
 
 // stableCells maps a local spilled to memory (because a closure/defer captures it) that is
@@ -1031,6 +1032,53 @@ func (a *Analyzer) refineEdge(b *ssa.BasicBlock, si int, d *DBM) {
 
 func (a *Analyzer) refine(d *DBM, cond ssa.Value, val bool) {
 	switch x := cond.(type) {
+	case *ssa.Phi:
+		// the value of `p || q` / `p && q` built by go/ssa as a phi: constant edges come from
+		// the blocks that short-circuited, the last edge carries the last operand. `||` false
+		// means every operand was false, `&&` true means every operand was true; the operands
+		// are comparisons of SSA values, so the facts hold wherever the phi has that value.
+		if a.refineDepth > 3 {
+			return
+		}
+		blk := x.Block()
+		shortVal, ok := true, true
+		nConst, last := 0, -1
+		for i, ed := range x.Edges {
+			if c, isC := ed.(*ssa.Const); isC && c.Value != nil && (c.Value.String() == "true" || c.Value.String() == "false") {
+				v := c.Value.String() == "true"
+				if nConst > 0 && v != shortVal {
+					ok = false
+				}
+				shortVal = v
+				nConst++
+			} else {
+				if last >= 0 {
+					ok = false
+				}
+				last = i
+			}
+		}
+		if !ok || nConst == 0 || last < 0 || val == shortVal {
+			return // not a short-circuit phi, or the outcome does not pin the operands
+		}
+		a.refineDepth++
+		defer func() { a.refineDepth-- }()
+		for i, ed := range x.Edges {
+			if i == last {
+				a.refine(d, ed, val)
+				continue
+			}
+			pred := blk.Preds[i]
+			if len(pred.Instrs) == 0 {
+				return
+			}
+			if ifi, isIf := pred.Instrs[len(pred.Instrs)-1].(*ssa.If); isIf && len(pred.Succs) == 2 {
+				// the short-circuit edge is the one on which the operand had the constant's value
+				if (shortVal && pred.Succs[0] == blk) || (!shortVal && pred.Succs[1] == blk) {
+					a.refine(d, ifi.Cond, !shortVal)
+				}
+			}
+		}
 	case *ssa.UnOp:
 		if x.Op == token.NOT {
 			a.refine(d, x.X, !val)
